@@ -88,7 +88,8 @@ class C10(Check):
                 "Pox.C10.siblings_untouched", "Pox.C10.ctl_no_overread", "Pox.C10.sw_no_overread",
                 "Pox.C10.ctl_disconnect_stops", "Pox.C10.ctl_no_disconnect_same", "Pox.C10.ctl_disconnect_persists",
                 "Pox.C10.sw_trace_is_feed", "Pox.C10.sw_answered_or_closed", "Pox.C10.sw_replies_only_for_skips",
-                "Pox.C10.ctl_trace_is_feed", "Pox.C10.ctl_accounted", "Pox.C10.ctl_task_contained", "Pox.C10.sw_deliver_window_only"]
+                "Pox.C10.ctl_trace_is_feed", "Pox.C10.ctl_accounted", "Pox.C10.ctl_task_contained", "Pox.C10.sw_deliver_window_only",
+                "Pox.C10.round_order_irrelevant", "Pox.C10.round_independent", "Pox.C10.ctl_round_contained", "Pox.C10.ctl_round_is_serveRound"]
     anchors = [("pox/openflow/of_01.py", "Connection.read"), ("pox/openflow/of_01.py", "OpenFlow_01_Task.run"),
                ("pox/datapaths/switch.py", "OFConnection.read"), ("pox/datapaths/switch.py", "OFConnection._error_handler"),
                ("pox/datapaths/switch.py", "OFConnection._extract_message_xid"), ("pox/lib/ioworker/__init__.py", "RecocoIOLoop.run"),
